@@ -113,6 +113,7 @@ func c13Schemes() []c13Scheme {
 		{"k", "k", "k", "", "", false},
 		{"lk", "rk", "ok", "L_", "R_", false},
 		{"k", "k", "k", "", "", true},
+		{"lk", "k", "k", "", "", false}, // -j k -l lk, -r omitted: the right name defaults to the -j name
 	}
 }
 
@@ -121,6 +122,8 @@ func c13Join(s c13Scheme, np, ul, ur, ie, sorted bool) *TransformerJoin {
 	argv := []string{"join", "-f", "left-file"}
 	if s.lk == s.rk && s.rk == s.ok {
 		argv = append(argv, "-j", s.ok)
+	} else if s.rk == s.ok && s.lk != s.ok {
+		argv = append(argv, "-j", s.ok, "-l", s.lk)
 	} else {
 		argv = append(argv, "-l", s.lk, "-r", s.rk, "-j", s.ok)
 	}
@@ -220,8 +223,8 @@ func c13Options() (np, ul, ur, ie bool) {
 //verif:opts engine-only maxpaths=60000 maxpaths_thorough=900000
 func VerifC13_unsorted_vs_nested_loop() {
 	verifReplace("github.com/johnkerl/miller/v6/pkg/input.Create", c13InputCreate)
-	n := c13N()
-	s := c13Schemes()[verifChoice("scheme", 3)]
+	n := 2 + verifTier() // left records: 2 quick / 3 thorough (the sorted-mode harness has 3 in both tiers)
+	s := c13Schemes()[verifChoice("scheme", 4)]
 	np, ul, ur, ie := c13Options()
 	L := c13Side("left", n)
 	R := c13Side("right", 2) // (3 x 3 in the thorough tier exhausted the path budget: 3 left x 2 right)
